@@ -73,6 +73,10 @@ func SpecCutReplace(entry, match, replacement string) string {
 // SpecCutReplace of that pair (loop 1 body clause). Several pairs are applied in the sorted order of
 // their keys (the map is drained into a slice and sorted first), so the result does not depend
 // on map iteration order.
+// the lines replaceSuffixes never rewrites: everything that starts with the directive/comment
+// prefix ##! and every blank line
+//@ reglemma[C06] suffix-pairs-skip-comments-and-directives: subset(match(`^##!`), match(local(parser.replaceSuffixes, skipRegex)), lines)
+//@ reglemma[C06] suffix-pairs-skip-blank-lines: subset(full(`\s*`), match(local(parser.replaceSuffixes, skipRegex)), lines)
 //@ contract replaceSuffixes
 //@   tags C06 C17 C19
 //@   opt scan-complete C17
@@ -80,6 +84,8 @@ func SpecCutReplace(entry, match, replacement string) string {
 //@   ensures[C06] no-pairs-identity: implies(isNil(suffixReplacements), err == nil)
 //@   checks[C03,C06] pairs-sorted-before-use: implies(!isNil(suffixReplacements), called(Strings))
 //@   loop 2 body[C06] one-pair-step: entry == SpecCutReplace(atHead(entry), match, replacement)
+//@   loop 1 body[C06] every-line-emitted-once: bufContent(sb) == atHead(bufContent(sb))+entry+"\n"
+//@   loop 1 body[C06] comments-directives-and-blank-lines-untouched: implies(reMatch(skipRegex, scanLines(scanner)[scanPos(scanner)-1]), entry == scanLines(scanner)[scanPos(scanner)-1])
 
 // ---- C06: exclusions ------------------------------------------------------------------------
 // removeExclusions: after an exclude file has been processed, exactly the keys equal to one of
@@ -178,6 +184,7 @@ func OpaqueFJoin2(a, b string) string       { return filepath.Join(a, b) }
 //@   params p
 //@   results r
 //@   ensures r == OpaquePathExt(p)
+//@   ensures utils.SpecHasSuffix(p, r)
 
 //@ extern filepath.IsAbs
 //@   params p
